@@ -257,3 +257,39 @@ Example ex_union :
   union [[[1]; [3]]; []; [[2]; [3]]; [[1]; [4]]] = [[1]; [2]; [3]; [4]]
   /\ Forall sorted [[[1]; [3]]; []; [[2]; [3]]; [[1]; [4]]].
 Proof. split; [vm_compute; reflexivity|]. repeat constructor. Qed.
+
+(** ** The monitor used on implementation observations never fires on the model.
+
+    [judge20] is deterministic ([judge_det]): the model predicts one observation,
+    [run20 inp]; the monitor [mon20] - the property as a decidable check, clauses
+    1..17 - is silent on it for every input.  [inp_wf20 inp] (Run/R20Proofs.v) is
+      - structured digests (kind 3): the size is below 2^63 (an int64);
+      - digest sets (kind 6): the universe is a list of canonically written valid
+        digests [(inst fn hash size)] (bytes and function as non-negative atoms,
+        exactly these four fields) and every set member is an index into it.
+    No condition for resource names (arbitrary bytes), instance names and compact
+    binary (arbitrary bytes).  harness/c20.go takes sizes as int64 and builds the
+    universe entries itself from digests it constructed. *)
+From BBS Require Import Run.R20Proofs.
+
+Theorem monitor_silent_on_model : forall inp, inp_wf20 inp -> mon20 inp (run20 inp) = [].
+Proof. exact mon20_silent_on_model. Qed.
+Print Assumptions monitor_silent_on_model.
+
+(** Each hypothesis is needed: size 2^63 in a structured digest; two universe
+    entries differing only in how a byte is written; an entry that is no digest;
+    an entry of size 2^64; a set member outside the universe. *)
+Example monitor_domain_boundary :
+  mon20 (ex_structured (2 ^ 63)) (run20 (ex_structured (2 ^ 63))) = [8; 1; 2; 3; 4; 5]%Z
+  /\ (let i := ex_sets (L [ex_entry (L [A 0]) 3 5; ex_entry (L [A (-5)]) 3 5]) (L []) in mon20 i (run20 i) = [6]%Z)
+  /\ (let i := ex_sets (L [ex_entry (L [A 97]) 99 5]) (L []) in mon20 i (run20 i) = [6; 13; 14]%Z)
+  /\ (let i := ex_sets (L [ex_entry (L [A 97]) 3 (2 ^ 64)]) (L [L [A 0]]) in mon20 i (run20 i) = [14]%Z)
+  /\ (let i := ex_sets (L [ex_entry (L [A 97]) 3 5]) (L [L [A 5]]) in mon20 i (run20 i) = [9; 11; 13; 14]%Z).
+Proof.
+  exact (conj size_bound_needed (conj canonical_entries_needed (conj valid_entries_needed
+          (conj entry_size_needed set_index_needed)))).
+Qed.
+
+(** Non-vacuity: a set case inside the domain. *)
+Example monitor_silent_example : inp_wf20 ex_sets_ok /\ mon20 ex_sets_ok (run20 ex_sets_ok) = []%Z.
+Proof. exact (conj ex_sets_ok_wf ex_sets_ok_silent). Qed.
